@@ -85,6 +85,12 @@ fn alpha_beta_search(
         return NEG_INF;
     }
 
+    // the per ply arrays of the search info only hold MAX_DEPTH entries, check extensions and the
+    // null move ply offset can carry a line past the iteration depth, so stop the line here
+    if ply_from_root >= MAX_DEPTH as i32 {
+        return get_evaluation(board);
+    }
+
     search_info.node_searched();
 
     // check for draw
